@@ -65,7 +65,7 @@ pub fn generate(rng: &mut Rng, prop: Prop) -> Scenario {
     let f_malformed = rng.chance(1, 3);
     let f_oversize = rng.chance(1, 1500);
 
-    let groups = rng.urange(1, 5);
+    let groups = rng.urange(1, 5 * crate::prng::depth());
     let mut gid = 0u64;
     for _ in 0..groups {
         gid += 1;
@@ -120,7 +120,7 @@ pub fn generate(rng: &mut Rng, prop: Prop) -> Scenario {
             0 => 1,
             1 => 2,
             2 => 3,
-            _ => rng.urange(1, 12),
+            _ => rng.urange(1, 12 * crate::prng::depth()),
         };
         let mut cuts = cut_points(rng, payload.len(), k);
         if !f_empty {
